@@ -445,7 +445,7 @@ pub fn execute(case: &SchedCase, lenses: SLenses, stall: &mut bool) -> R<Execute
             g = g2;
             if to.timed_out() {
                 waited += Duration::from_millis(500);
-                if waited >= Duration::from_secs(20) {
+                if waited >= Duration::from_secs(6) {
                     *stall = true;
                     break;
                 }
@@ -604,7 +604,7 @@ pub fn execute(case: &SchedCase, lenses: SLenses, stall: &mut bool) -> R<Execute
         std::mem::forget(scratch);
         std::mem::forget(handles);
         result?;
-        return Err(Fail::new("sched/stall", "a granted worker neither reached a yield point nor finished within 20 s"));
+        return Err(Fail::new("sched/stall", "a granted worker neither reached a yield point nor finished within 6 s"));
     }
     for h in handles {
         let _ = h.join();
